@@ -103,6 +103,10 @@ Proof. exact (kit_concat_lawful). Qed.
 Theorem c01_affine_lawful : kit_lawful kit_affine af_pending.
 Proof. exact (kit_affine_lawful). Qed.
 
+(** range bit-flip with the zero-sized modifier type () (a lazy item although M = ()) is lawful; pending = parity of the unpushed flips *)
+Theorem c01_flip_lawful : kit_lawful kit_flip fl_pending.
+Proof. exact (kit_flip_lawful). Qed.
+
 (** on every case where the implementation agrees with the model, its observations satisfy the plain-array specification *)
 Theorem c01_model_check_spec_check : forall c : C01.Corr.case, C01.Corr.model_check c = true -> C01.Corr.spec_check c = true.
 Proof. exact (fun c => model_check_spec_check_gen true false c). Qed.
